@@ -43,6 +43,7 @@ type LoopContract struct {
 	Decreases  *Clause
 	Modifies   []*Clause
 	Unroll     bool
+	ModifiesFresh bool // every byte array allocated by the function before the loop may change in the loop
 }
 
 type FuncContract struct {
@@ -254,6 +255,8 @@ func parseContractFile(path string, pc *PkgContracts) error {
 					}
 				case "unroll":
 					lc.Unroll = true
+				case "modifies-fresh":
+					lc.ModifiesFresh = true
 				default:
 					return fmt.Errorf("%s:%d: unknown loop clause %q", path, i+1, sub)
 				}
